@@ -712,6 +712,27 @@ Definition m_step (names : list bytes) (st : mst) (o : op) : option (mst * obs) 
       | Some (st1, r) => Some (st1, {| o_wrote := []; o_res := XSocks r |})
       | None => None
       end
+  | OpCopy dst src =>
+      (* setattr(config, dst, getattr(config, src)).  __setattr__ hands every list it is given to
+         _ListWrapper(value, ...), which COPIES it (Gen: _ListWrapper.__init__ shape), so the object
+         read from src and the one stored for dst are different objects with equal contents: the
+         by-value assignment below is exact *)
+      match m_getattr st src with
+      | Oos => None
+      | Exc k => Some (st, {| o_wrote := []; o_res := XRaised k |})
+      | Ok (st1, _, g) =>
+          let v := match g with
+                   | GConfig (CAtom a) => PAtom a
+                   | GConfig (CList _ l) => PList l
+                   | GDefault (DStr s) => PAtom (AStr s)
+                   | GDefault (DList l) => PList (map AStr l)
+                   end in
+          match m_setattr st1 dst v with
+          | Ok st2 => Some (st2, {| o_wrote := []; o_res := XOk |})
+          | Exc k => Some (st1, {| o_wrote := []; o_res := XRaised k |})
+          | Oos => None
+          end
+      end
   end.
 
 Fixpoint m_run (names : list bytes) (st : mst) (ops : list op) : option (list obs) :=
